@@ -92,6 +92,9 @@ def job_continuum(cfg):
         # enumerated exact rational rotation (3-4-5): used where float reference gradients leave 1e-17 noise in every Jacobian,
         # which would turn the symbolic-angle residuals into quotients with hundreds of distinct denominators
         th, cs, sn = float(np.degrees(np.arctan2(0.8, 0.6))), Fraction(3, 5), Fraction(4, 5)
+    elif motion == "Tz":
+        # pure translation, out of the plane of a 2-D problem included (the mesh then lives in z = d2 != 0)
+        th, cs, sn = 0.0, Fraction(1), Fraction(0)
     else:
         th, cs, sn = oblig.angle("theta")
     # higher-order elements: sum of the float reference gradients is ~1e-17, not 0, so a symbolic translation would enter every Jacobian
@@ -147,8 +150,9 @@ def job_continuum(cfg):
             pt = np.array([nn_[i] * off for i in range(3)], dtype=object)
             mesh.Symmetry(pt, normal)
         else:
-            mesh.Translate(d[0], d[1], d[2] if dim == 3 else 0)
-            mesh.Rotate(th, center, axis)
+            mesh.Translate(d[0], d[1], d[2] if (dim == 3 or motion == "Tz") else 0)
+            if motion != "Tz":
+                mesh.Rotate(th, center, axis)
         if law in ("aniso", "trans") and sim != "thermal":
             facade.OPAQUE_INV_FROM = 4 if law == "trans" else 3
             mat1 = material(ax1=R[:, 0].copy(), ax2=R[:, 1].copy()) if motion != "S" else material(ax1=R[:, 0].copy(), ax2=R[:, 1].copy())
@@ -176,6 +180,8 @@ def job_continuum(cfg):
         import math
 
         cf, sf = (fval(env, cs), fval(env, sn)) if motion != "Rq" else (0.6, 0.8)
+        if motion == "Tz":
+            cf, sf = 1.0, 0.0
         ang = math.degrees(math.atan2(sf, cf))
         m2 = mk()
         if motion == "S":
@@ -183,8 +189,9 @@ def job_continuum(cfg):
             m2.Symmetry(nf * fval(env, off), normal)
             Rf = np.eye(3) - 2 * np.outer(nf, nf)
         else:
-            m2.Translate(fval(env, d[0]), fval(env, d[1]), fval(env, d[2]) if dim == 3 else 0)
-            m2.Rotate(ang, center, axis)
+            m2.Translate(fval(env, d[0]), fval(env, d[1]), fval(env, d[2]) if (dim == 3 or motion == "Tz") else 0)
+            if motion != "Tz":
+                m2.Rotate(ang, center, axis)
             Rf = np.array([[float(as_sym(R[i, j]).eval({kk: float(v) for kk, v in {**c.shadow, **(env or {})}.items()})) for j in range(3)] for i in range(3)])
         mat2 = material(ax1=Rf[:, 0].copy(), ax2=Rf[:, 1].copy()) if (law in ("aniso", "trans") and sim != "thermal") else material()
         s2 = simulation(m2, mat2)
@@ -429,6 +436,10 @@ def main():
                 configs.append({"sim": "beam", "dim": 2, "elem": et, "timoshenko": tim, "direction": dd})
             for dd in (dirs3 if tier == "thorough" else dirs3[:1]):
                 configs.append({"sim": "beam", "dim": 3, "elem": et, "timoshenko": tim, "direction": dd})
+    # a plane problem translated OUT of its plane (round 7): same matrices and load vector
+    configs.append({"sim": "thermal", "elem": "TRI3", "motion": "Tz"})
+    configs.append({"sim": "elastic", "elem": "TRI3", "law": "iso", "motion": "Tz"})
+    configs.append({"sim": "elastic", "elem": "TRI6", "law": "iso", "motion": "Tz"})
     configs.append({"sim": "solve"})
     results = harness.run_jobs(job, configs)
     harness.finish(
